@@ -43,9 +43,12 @@ def mk_values(it, prog):
         vals[f'int {v if abs(v) < 1000 else ("-" if v < 0 else "") + "2^" + str(abs(v).bit_length() - (0 if abs(v) & (abs(v) - 1) else 1)) + ("" if not abs(v) & (abs(v) - 1) else "~")}'] = K(v)
     c = cm.new_cell(it, cm.tvm_bits(it, BA([Seg(13, 'k', '1011001110001')])), [cm.leaf(it, 0, 'r')])
     vals['cell'] = c
-    sl = cm.call_method(it, cm.new_cell(it, cm.tvm_bits(it, BA([Seg(9, 'k', '110011001')])), [cm.leaf(it, 0, 's1'), cm.leaf(it, 0, 's2')]), 'begin_parse')
+    def kleaf(bits):
+        # distinguishable children: a slice window that starts at the wrong reference must show
+        return cm.new_cell(it, cm.tvm_bits(it, BA([Seg(len(bits), 'k', bits)])), [])
+    sl = cm.call_method(it, cm.new_cell(it, cm.tvm_bits(it, BA([Seg(9, 'k', '110011001')])), [kleaf('1'), kleaf('10')]), 'begin_parse')
     vals['slice'] = sl
-    sl2 = cm.call_method(it, cm.new_cell(it, cm.tvm_bits(it, BA([Seg(12, 'k', '101100111000')])), [cm.leaf(it, 0, 't1'), cm.leaf(it, 0, 't2'), cm.leaf(it, 0, 't3')]), 'begin_parse')
+    sl2 = cm.call_method(it, cm.new_cell(it, cm.tvm_bits(it, BA([Seg(12, 'k', '101100111000')])), [kleaf('111'), kleaf('1101'), kleaf('10001')]), 'begin_parse')
     cm.call_method(it, sl2, 'load_uint', K(5))
     cm.call_method(it, sl2, 'load_ref')
     vals['slice (partly consumed)'] = sl2
@@ -128,7 +131,7 @@ def check(run):
     run.explanation = 'vm_* parsers checked against block.tlb by typestate; VmStack.serialize interpreted on all value kinds and decoded by a schema-directed decoder; caller-held containers compared before/after.'
     run.rule('D1r', 'per (vm class, constructor, length pattern): reads = schema fields (width, sign, order), references in order, exact consumption, passed length argument = schema argument', 30)
     run.rule('D1w', 'the cell emitted for a stack is consumed exactly by the schema-directed decoder as VmStack (tags, widths, signedness, tuple chaining, references)', 30)
-    run.rule('D2', 'integers: written in the 64-bit form only if they fit int64, else in the 257-bit form; every boundary value is written without error and decodes to itself', 16)
+    run.rule('D2', 'integers: written in the 64-bit form exactly when they fit int64 (-2^63 .. 2^63-1), else in the 257-bit form; every boundary value is written without error and decodes to itself', 16)
     run.rule('D3', 'serialising leaves the caller\'s list, tuples, slices and builders unchanged; a second serialisation gives the same cell', 30)
     run.rule('D4', 'deserialize(serialize(stack)) returns equal values in the same order with nothing left unread', 30)
     run.trust('CPython ast', 'checker interpreter', 'sa/tlbp.py + sa/tlbslice.py + sa/tlbdecode.py', 'bundled block.tlb', 'bitarray model')
@@ -188,7 +191,7 @@ def check(run):
                 decoded = [x for p, x in fl if p.endswith('value')]
                 fits = -(1 << 63) <= v < (1 << 63)
                 form64 = any(p.endswith('value') for p, x in fl) and len(cell.attrs['bits'].native) == 24 + 8 + 64
-                ok = len(decoded) == 1 and isinstance(decoded[0], K) and decoded[0].v == v and (not form64 or fits)
+                ok = len(decoded) == 1 and isinstance(decoded[0], K) and decoded[0].v == v and form64 == fits
                 why = f'value {v if abs(v) < 1 << 70 else hex(v)}: written in the {"64-bit" if form64 else "257-bit"} form, decodes to {vrepr(decoded[0])[:40] if decoded else None}'
                 run.check(ok, 'D2', 'VmStackValue.serialize[int form]' if not ok else f'int form {stack[0]}', why, w)
         except Mismatch as e:
